@@ -192,10 +192,9 @@ htp_status_t contract_htp_gzip_decompressor_decompress(htp_decompressor_t *drec1
 __CPROVER_requires(__CPROVER_is_fresh(drec1, sizeof(htp_decompressor_gzip_t)) && __CPROVER_is_fresh(GZ(drec1)->buffer, C07_BUF) && C07_DREC_FIELDS(GZ(drec1)))
 __CPROVER_requires(__CPROVER_is_fresh(d, sizeof(*d)) && __CPROVER_is_fresh(d->tx, sizeof(htp_tx_t)) && __CPROVER_is_fresh(d->tx->cfg, sizeof(htp_cfg_t)))
 __CPROVER_requires(d->len <= C07_INCAP && (g_c07_eos ? d->data == NULL : __CPROVER_is_fresh(d->data, d->len)))
-#ifndef C07_EXTRA_PRE
-#define C07_EXTRA_PRE 1
-#endif
-__CPROVER_requires(C07_EXTRA_PRE)
+/* C07_RESTART_MIN = 3: the restart heuristics are exhausted (htp_gzip_decompressor_restart returns 0), the `goto restart` edge is
+ * unreachable and the unwinding assertion placed on it (unwind 1) proves that; C07_RESTART_MIN = 2: one re-entry (unwind 2); ... */
+__CPROVER_requires(GZ(drec1)->restart >= C07_RESTART_MIN)
 /* single / innermost layer; the terminal callback is the sink stub */
 __CPROVER_requires(drec1->next == NULL && drec1->callback == c07_sink)
 /* ghost snapshot the sink's call-site obligations refer to */
